@@ -26,6 +26,48 @@ ASSUMPTIONS = ["rod attributes live on the rod object: a load referring to rod d
 BLIND_SPOTS = ["wrong sign or factor of an energy or force term"]
 
 
+def _potential_force(ctx, cE):
+    """does cE's own `h` belong to cE's `E_pot`?  The energy is computed from a constitutive sub-object (`self.material_model.potential(...)`,
+    a force law, ...): the set of attributes on which E_pot's call closure invokes methods.  cE.h is the force of that energy only if its
+    closure touches one of them.  Without such a sub-object the question is not decidable here and the pairing is assumed (the rule's
+    original reading)."""
+    view = protocol.ClassView(ctx, cE)
+
+    def closure(root):
+        objs, attrs = set(), set()
+        for name, bodies in view.reachable([root]).items():
+            for (c, body, kind) in bodies:
+                for w in ast.walk(body):
+                    if isinstance(w, ast.Call) and isinstance(w.func, ast.Attribute) and isinstance(w.func.value, ast.Attribute) and dotted(w.func.value.value) == "self":
+                        objs.add(w.func.value.attr)
+                    elif isinstance(w, ast.Attribute) and dotted(w.value) == "self" and isinstance(w.ctx, ast.Load):
+                        attrs.add(w.attr)
+        return objs, attrs
+    oE, aE = closure("E_pot")
+    oh, ah = closure("h")
+    if not oE:
+        return True
+    return bool(oE & (oh | ah))
+
+
+def system_force_accumulation(ctx, rule="C07.R11"):
+    rep = ctx.rep
+    rel = "cardillo/system.py"
+    fn = ctx.repo.get(rel, "System.h")
+    C = f"{rel}:System.h"
+    n = 0
+    for w in ast.walk(fn):
+        if isinstance(w, ast.AugAssign) and isinstance(w.target, ast.Subscript) and isinstance(w.target.slice, ast.Attribute) and w.target.slice.attr == "uDOF":
+            n += 1
+            rep.bad(rule, C, w, f"`{norm_src(w)[:70]}` is a buffered fancy-index accumulation on a DOF table that can repeat indices (TwoPointInteraction.uDOF = (uDOF1, uDOF2) of one body): "
+                    "one of the two end-point forces is dropped from System.h while the COO-assembled Jacobians and W_c keep both", f"{rel}:{w.lineno}")
+        elif isinstance(w, ast.Call) and (dotted(w.func) or "").endswith("add.at") and len(w.args) >= 2 and isinstance(w.args[1], ast.Attribute) and w.args[1].attr == "uDOF":
+            n += 1
+            rep.ok(rule, C, f"`{norm_src(w)[:70]}`: unbuffered")
+    if n < 1:
+        rep.ok(rule, C, "no accumulation on contr.uDOF recognised (no verdict)", verdict="unknown", trivial=True)
+
+
 def energy_force_pairing(ctx):
     """System.E_pot sums every contribution with a callable E_pot.  If a base class defines E_pot AND h (the energy of that force), a
     subclass that replaces h but keeps the inherited E_pot reports the energy of a force it no longer exerts (e.g. a follower force
@@ -48,6 +90,8 @@ def energy_force_pairing(ctx):
             C = f"{ci.rel}:{ci.qual}"
             if cE is ch:
                 rep.ok("C07.R8", C, f"E_pot and h are both defined by {cE.qual}")
+            elif "h" in cE.methods and not _potential_force(ctx, cE):
+                rep.ok("C07.R8", C, f"E_pot from {cE.qual}; {cE.qual}.h does not use the constitutive object that energy is computed from (a non-potential force, e.g. gyroscopic), h from {ch.qual}")
             elif "h" in cE.methods:
                 rep.bad("C07.R8", C, fh.name, f"`{ci.qual}` takes `h` from {ch.qual} but `E_pot` from {cE.qual}, which defines its own `h`: the inherited energy is the potential of "
                         f"{cE.qual}'s force, not of the force {ch.qual}.h exerts; System.E_pot and the element's power balance are wrong for this element", f"{ci.rel}:{fh.lineno}")
@@ -67,6 +111,8 @@ def run(ctx):
     _dirs = ("cardillo/interactions/", "cardillo/force_laws/", "cardillo/forces/", "cardillo/actuators/")
     _c26.r1_keys(ctx, _c26.find_sites(ctx), rule="C07.R10", want_cls=lambda ci: ci.rel.startswith(_dirs))
     _c26.handmade_memo(ctx, "C07.R10", lambda rel: rel.startswith(_dirs))
+    rep.rule("C07.R11", "System.h adds each element's generalized force UNBUFFERED on the element's velocity DOFs (np.add.at): the DOF table of an interaction between two points of one body / rod repeats indices, and a fancy-index `+=` keeps one summand per index - the element's power in System.h is then not -dE_pot/dt and the force form disagrees with W_c la_c", 1)
+    system_force_accumulation(ctx)
     rep.rule("C07.R1", "E_pot dispatch totality", 5)
     rep.rule("C07.R2", "attribute resolution / callable misuse / helper arity under E_pot", 8)
     rep.rule("C07.R3", "energy atoms are covered by the generalized force", 3)
@@ -283,4 +329,9 @@ MUTANTS += [
 NEUTRAL += [
     dict(id="c07-n-r10", canary=True, what="ScalarForceLawBase.l_dot memoised with the full key (t, q, u)", file=FB,
          edits=[(FB,) + _FB_IMP, (FB,) + _FB_INIT, (FB,) + ('    def assembler_callback(self):\n        self.subsystem.assembler_callback()\n', '    @cachedmethod(\n        lambda self: self.l_dot_cache,\n        key=lambda self, t, q, u: hashkey(t, *q, *u),\n    )\n    def l_dot(self, t, q, u):\n        return self.subsystem.l_dot(t, q, u)\n\n    def assembler_callback(self):\n        self.subsystem.assembler_callback()\n')]),
+]
+
+MUTANTS += [
+    dict(id="c07-r11-seed", canary=True, what="[seeded by sub-agent] System.h accumulates with a buffered fancy-index += (fix 91ee499a reverted)", file='cardillo/system.py',
+         old="np.add.at(h, contr.uDOF, contr.h(t, q[contr.qDOF], u[contr.uDOF]))", new="h[contr.uDOF] += contr.h(t, q[contr.qDOF], u[contr.uDOF])", expect="C07.R11"),
 ]
